@@ -16,14 +16,13 @@ from .tiers import META, TIERS
 
 class Server:
     def __init__(self, hashseed):
-        env = dict(os.environ)
-        env["PYTHONHASHSEED"] = str(hashseed)
+        cmd, env = R.interpreter_cmd_env(hashseed)
         env["PYTHONDONTWRITEBYTECODE"] = "1"
         env["D42_SRC"] = R.d42_src()
         env.pop("PYTHONPATH", None)
         self.h = hashseed
         self.calls = 0
-        self.p = subprocess.Popen([R.PY, "-u", R.WORKER, json.dumps({"property": "C17", "mode": "serve"})],
+        self.p = subprocess.Popen(cmd + [R.WORKER, json.dumps({"property": "C17", "mode": "serve"})],
                                   stdin=subprocess.PIPE, stdout=subprocess.PIPE, stderr=subprocess.DEVNULL,
                                   env=env, cwd=R.VERIF, text=True)
 
@@ -75,6 +74,18 @@ def minimise(servers_pair, case, budget_s=20, max_exec=1500):
     return case, n
 
 
+FLAGS = ["", "", "O", "malloc_debug", "preload", "", "dev", "O+preload", "", "malloc_debug+preload", "", "O", "", "", "preload", ""]
+
+
+def interpreter_configs(seed, n):
+    hs = R.hash_seeds(seed, n)
+    out = []
+    for i, h in enumerate(hs):
+        f = FLAGS[i % len(FLAGS)]
+        out.append("%d:%s" % (h, f) if f else h)
+    return out
+
+
 def run_check_c17(tier, seed, workers=None, cases=None):
     t0 = time.time()
     pid = "C17"
@@ -82,7 +93,7 @@ def run_check_c17(tier, seed, workers=None, cases=None):
     if cases:
         cfg["cases"] = cases
     n = cfg["cases"]
-    H = R.hash_seeds(seed, cfg["configs"])
+    H = interpreter_configs(seed, cfg["configs"])
     W = workers or 16
     per = max(1, W // len(H))
     wall = cfg.get("wall", 900)
